@@ -28,6 +28,8 @@ type ndef struct {
 	name string
 	body *exprgen.Node
 	id   string // body class, used in signatures
+	// extra call sites (argument lists) that make the body's behaviour visible
+	calls [][]*exprgen.Node
 }
 
 var (
@@ -45,30 +47,45 @@ var (
 // argument fed from a parameter.
 func firstDefs() []ndef {
 	return []ndef{
-		{"double", C("sumi", R(0), R(0)), "double"},
-		{"add", C("sumi", R(0), R(1)), "add2"},
-		{"pick", C("switch", C("eq", R(0), W("a")), W("isa"), C("eq", R(0), W("b")), W("isb"), W("other")), "switch-doc"},
-		{"dflt", C("coalesce", R(1), K("key"), W("dflt")), "coalesce-key"},
-		{"lazy", C("if", R(1), C("upper", R(0)), C("lower", R(0))), "lazy-if"},
-		{"swap", C("format", W("%s/%s"), R(1), R(0)), "format-swap"},
-		{"third", S(R(2), L("-"), R(0)), "third-text"},
-		{"incall", C("@map", R(0), C("sumi", R(0), K("n"))), "map-rebinding"},
-		{"small", C("lt", R(0), W("5")), "typed-lt"},
-		{"three", C("sumi", W("1"), W("2")), "constant"},
-		{"wrap", S(L("<"), C("upper", R(0)), L("|"), K("key"), L(">")), "text-around"},
-		{"csvline", C("csv", R(0), R(1), L("a b")), "quoted-literal"},
-		{"spl", C("@split", R(0), R(1)), "const-only-arg-from-param"},
-		{"rep", C("repeat", R(0), W("2")), "rejected-at-load"},
+		{"double", C("sumi", R(0), R(0)), "double", nil},
+		{"add", C("sumi", R(0), R(1)), "add2", nil},
+		{"pick", C("switch", C("eq", R(0), W("a")), W("isa"), C("eq", R(0), W("b")), W("isb"), W("other")), "switch-doc", nil},
+		{"dflt", C("coalesce", R(1), K("key"), W("dflt")), "coalesce-key", nil},
+		{"lazy", C("if", R(1), C("upper", R(0)), C("lower", R(0))), "lazy-if", nil},
+		{"swap", C("format", W("%s/%s"), R(1), R(0)), "format-swap", nil},
+		{"third", S(R(2), L("-"), R(0)), "third-text", nil},
+		{"incall", C("@map", R(0), C("sumi", R(0), K("n"))), "map-rebinding", nil},
+		{"small", C("lt", R(0), W("5")), "typed-lt", nil},
+		{"three", C("sumi", W("1"), W("2")), "constant", nil},
+		{"wrap", S(L("<"), C("upper", R(0)), L("|"), K("key"), L(">")), "text-around", nil},
+		{"csvline", C("csv", R(0), R(1), L("a b")), "quoted-literal", nil},
+		{"rep", C("repeat", R(0), W("2")), "rejected-at-load", nil},
+		// helpers with an optional argument that must be a constant ("delim",
+		// initial value, comment prefix, time format, time zone), fed from a
+		// parameter of the function; one signature for the class
+		{"spl", C("@split", R(0), R(1)), constOnly, [][]*exprgen.Node{{L("a,b"), L(",")}}},
+		{"jn", C("@join", R(0), R(1)), constOnly, [][]*exprgen.Node{{C("@", W("a"), W("b")), W("-")}}},
+		{"red", C("@reduce", R(0), C("sumi", R(0), R(1)), R(1)), constOnly, [][]*exprgen.Node{{C("@", W("1"), W("2")), W("10")}}},
+		{"lk", C("lookup", R(0), L("c d"), R(1)), constOnly, [][]*exprgen.Node{{W("c"), W("c")}}},
+		{"hk", C("haskey", R(0), L("c d"), R(1)), constOnly, [][]*exprgen.Node{{W("c"), W("c")}}},
+		{"tfm", C("time", R(0), R(1)), constOnly, [][]*exprgen.Node{{L("2020|03|01"), L("2006|01|02")}}},
+		{"ttz", C("time", R(0), L(""), R(1)), constOnly, [][]*exprgen.Node{{L("2020-03-01 10:00:00"), W("America/New_York")}}},
+		{"tff", C("timeformat", R(0), R(1)), constOnly, [][]*exprgen.Node{{W("1583020800"), W("YEAR")}}},
+		{"tftz", C("timeformat", R(0), W("RFC3339"), R(1)), constOnly, [][]*exprgen.Node{{W("1583020800"), W("America/New_York")}}},
+		{"btf", C("buckettime", R(0), W("days"), R(1)), constOnly, [][]*exprgen.Node{{L("2020|03|01"), L("2006|01|02")}}},
+		{"tatz", C("timeattr", R(0), W("weekday"), R(1)), constOnly, [][]*exprgen.Node{{W("1583020800"), W("America/New_York")}}},
 	}
 }
+
+const constOnly = "const-only-arg-from-param"
 
 // secondDefs call the first definition f.
 func secondDefs(f string) []ndef {
 	return []ndef{
-		{"twice", C(f, C(f, R(0), R(1)), R(1)), "nested-self"},
-		{"flip", C("upper", C(f, R(1), R(0))), "inside-builtin"},
-		{"keyed", S(L("["), C(f, R(0), K("key")), L("]")), "key-argument"},
-		{"mapped", C("@map", R(0), C(f, R(0), W("x"))), "call-in-map"},
+		{"twice", C(f, C(f, R(0), R(1)), R(1)), "nested-self", nil},
+		{"flip", C("upper", C(f, R(1), R(0))), "inside-builtin", nil},
+		{"keyed", S(L("["), C(f, R(0), K("key")), L("]")), "key-argument", nil},
+		{"mapped", C("@map", R(0), C(f, R(0), W("x"))), "call-in-map", nil},
 	}
 }
 
@@ -279,7 +296,7 @@ func (e *env) funcsPhase(unit *int64) {
 	firsts := firstDefs()
 	for fi, f := range firsts {
 		seconds := append([]ndef{{}}, secondDefs(f.name)...)
-		if f.id == "const-only-arg-from-param" {
+		if f.id == constOnly {
 			// known to differ on its own; callers of it would only repeat that
 			seconds = seconds[:1]
 		}
@@ -349,7 +366,11 @@ func (e *env) funcsPhase(unit *int64) {
 						text += plainLine(d) + "\n"
 					}
 				}
-				for _, call := range callSites(target.name, thorough) {
+				sites := callSites(target.name, thorough)
+				for _, args := range target.calls {
+					sites = append(sites, C(target.name, args...))
+				}
+				for _, call := range sites {
 					e.funcsOne(funcsCase{defs: defs, text: text, plain: plain, call: call, layout: lay.String()})
 				}
 			}
@@ -393,11 +414,9 @@ func (e *env) funcsOne(fc funcsCase) {
 		return
 	}
 	inlineT := inlined.Print(0)
-	target := fc.defs[len(fc.defs)-1]
-	id := target.id
-	if len(fc.defs) == 2 {
-		id = fc.defs[0].id + "+" + target.id
-	}
+	// the signature names the first definition's body class; the second
+	// definition (a caller of the first) is in the detail
+	id := fc.defs[0].id
 	e.w.SetCase(func() any {
 		return Case{Part: "funcs", Template: q(callT), File: q(fc.text), Plain: q(fc.plain), Inline: q(inlineT), Body: id, OnDisk: fc.onDisk}
 	})
@@ -450,8 +469,10 @@ func (e *env) funcsCompare(defs []ndef, text, plain, callT, inlineT string, onDi
 	var fns map[string]expressions.KeyBuilderFunction
 	var err error
 	if pi := catch(func() { fns, err = loadFuncs(text, onDisk) }); pi != nil {
-		w.Add("skipped_load_panics_c08", 1)
-		w.Eval(false)
+		// the same definitions load when written one per line
+		w.Eval(true)
+		w.Violation("C10/funcs/layout-changes-what-is-loaded",
+			fmt.Sprintf("the definitions load when written one per line but loading this layout (%s) panics: %v\nfile:\n%s", layoutDesc, pi.val, text), mk("load"))
 		return
 	}
 	if err != nil || !has(fns) || len(fns) != len(names) {
@@ -506,7 +527,11 @@ func (e *env) funcsCompare(defs []ndef, text, plain, callT, inlineT string, onDi
 			}
 			compared++
 			if got != want {
-				w.Violation("C10/funcs/differs-from-inline/"+id,
+				sig := "C10/funcs/differs-from-inline/" + id
+				if w.Param("split", "") == "1" { // diagnosis: one signature per definition set
+					sig += "/" + strings.Join(names, "+")
+				}
+				w.Violation(sig,
 					fmt.Sprintf("call %q (optimise=%v) on context %s returned %q; the inlined body %q returns %q\nlayout: %s\nfile:\n%s", callT, o == 0, cx.Name, got, inlineT, want, layoutDesc, text), mk("ctx="+cx.Name))
 			}
 		}
